@@ -46,7 +46,11 @@ def field (j : Json) (k : String) : Json := (j.getObjVal? k).toOption.getD .null
 
 /-! ### `routecmd.build` for the generated fragment -/
 
-def isSpace (c : Char) : Bool := c == ' ' || c == '\t' || c == '\n' || c == '\r'
+/-- `unicode.IsSpace` (what `strings.TrimSpace` / `strings.Fields` test), written out independently of `Model/Parse` -/
+def isSpace (c : Char) : Bool :=
+  let n := c.toNat
+  c == ' ' || (9 ≤ n && n ≤ 13) || n == 0x85 || n == 0xA0 || n == 0x1680 || (0x2000 ≤ n && n ≤ 0x200A) ||
+  n == 0x2028 || n == 0x2029 || n == 0x202F || n == 0x205F || n == 0x3000
 def trimSpace (s : Str) : Str := ((s.dropWhile isSpace).reverse.dropWhile isSpace).reverse
 
 def splitFirst (c : Char) (s : Str) : Str × Option Str :=
@@ -170,7 +174,7 @@ def passingH : Handler := fun inp impl => do
   -- spec, from the English rule
   let kept (c : Check) : Bool :=
     c.checkID == serf || c.checkID == nodeMaint || (S "_service_maintenance").isPrefixOf c.checkID ||
-    c.tags.any (fun t => pfx.isPrefixOf t)
+    c.tags.any (fun t => pfx.isPrefixOf (trimSpace t))  -- a tag is read trimmed, as `routecmd.build` reads it
   let specFilter := strictlyIncreasing iFilter && ics.all (fun p => iFilter.contains (Int.ofNat p.1) == kept p.2)
   let specPassing := strictlyIncreasing iPassing &&
     ics.all (fun p => iPassing.contains (Int.ofNat p.1) ==
